@@ -33,7 +33,7 @@ NAMES = ["x", "y", "z", "t"]
 
 def bounds(tier):
     return {"max_ndim": 3 if tier == "quick" else 4, "axis_variants": 7, "axis_lengths": LENS,
-            "menu_size": 14, "tol_values": "0, quarter, half, one step, inf"}
+            "menu_size": "14 (+2 fractional near-label queries on numeric axes)", "tol_values": "0, quarter, half, one step, inf"}
 
 
 def menu(lab, kind, small=False):
@@ -42,8 +42,11 @@ def menu(lab, kind, small=False):
     m = [["full"], ["s", lab[0]], ["s", ab], ["l", [lab[-1]]], ["l", lab[::-1]], ["l", [lab[0], lab[-1], lab[0]]],
          ["l", [lab[0], ab]], ["l", []], ["nd", [lab[-1], lab[0]]], ["m", [i % 2 == 0 for i in range(n)]],
          ["m", [False] * n], ["nps", lab[-1]], ["ml", [i == n - 1 for i in range(n)]], ["nd", []]]
+    if kind in "if":   # fractional query hugging a label: must not be truncated / rounded onto it
+        eps = 0.5 if kind == "i" else 0.125
+        m = m + [["s", lab[0] + eps], ["l", [lab[-1], lab[0] - eps]]]
     if small:
-        return [m[0], m[1], m[2], m[4], m[5], m[7], m[9], m[11]]
+        return [m[0], m[1], m[2], m[4], m[5], m[7], m[9], m[11]] + (m[14:15] if kind in "if" else [])
     return m
 
 
